@@ -476,10 +476,9 @@ def execute(world, sb, res):
         bufs = buffers if snapshot is None else snapshot
         if uri in bufs:
             return bufs[uri]
-        rk = real_key(uri)
-        for u_, t_ in bufs.items():
-            if real_key(u_) == rk:
-                return t_
+        # A URI the client has not opened names the file on disk, also when an open document reaches the same file through a
+        # symbolic link: the protocol identifies documents by URI, not by real path (only `tainted` is keyed by real path,
+        # because an edit behind the server does change the file under all of its names).
         if uri.startswith("file://"):
             p = lsp_client.uri_to_path(uri)
             try:
